@@ -98,6 +98,9 @@ Iff(hasAttr, nfields, D, lit, args) ==
 (* derived trait itself, i.e. Display, since `_variant` must be Display:   *)
 (* there the variant's own outcome applies.                                *)
 (***************************************************************************)
+\* sh = "default": an enum-level literal WITHOUT `_variant` ("dflt"): used for, and only for, variants without an
+\* attribute of their own (C07) - a variant with its own attribute is judged by that attribute alone
+DocSharedDefault(hasAttr, inner) == IF hasAttr THEN inner ELSE <<"inert">>
 DocShared(sh, D, inner) ==
     IF sh = "none" \/ inner[1] = "error" THEN inner
     ELSE IF sh = "bare_variant" /\ D = "Display" THEN inner
@@ -109,6 +112,11 @@ ImplShared(sh, D, inner) ==
     IN  IF inner[1] = "error" THEN inner
         ELSE IF hasShared THEN <<"inert">>                          \* match <body> { _variant => write!(f, shared) }
         ELSE inner
+\* Impl for "default": has_shared_attr, not wrapping: the variant's own attribute (transparent or not) is expanded as
+\* on a struct; a variant without one gets `write!(f, <shared>)`
+ImplSharedDefault(hasAttr, inner) == IF hasAttr THEN inner ELSE <<"inert">>
 IffShared(sh, hasAttr, nfields, D, lit, args) ==
-    ImplShared(sh, D, ImplOutcome(hasAttr, nfields, D, lit, args)) = DocShared(sh, D, DocOutcome(hasAttr, nfields, D, lit, args))
+    IF sh = "default"
+    THEN ImplSharedDefault(hasAttr, ImplOutcome(hasAttr, nfields, D, lit, args)) = DocSharedDefault(hasAttr, DocOutcome(hasAttr, nfields, D, lit, args))
+    ELSE ImplShared(sh, D, ImplOutcome(hasAttr, nfields, D, lit, args)) = DocShared(sh, D, DocOutcome(hasAttr, nfields, D, lit, args))
 =============================================================================
